@@ -684,3 +684,4 @@ CHECKS["C16"]["required_classes"]["all"] += ["history:record-with-auxiliary-line
 CHECKS["C01"]["required_classes"]["all"] += ["overlapping-updates-of-a-record-with-auxiliary-data"]
 CHECKS["C08"]["jobs"].append(J("overlapping-writers", VSTORE, "TestC01OverlappingWrites", {"shards": 2, "n": 40}, {"shards": 8, "n": 3000}, rapid=False))
 CHECKS["C08"]["required_classes"]["all"] += ["overlapping-updates-of-a-record-with-auxiliary-data"]
+CHECKS["C08"]["required_classes"]["all"] += ["work-area-had-leftovers-under-the-names-a-dry-run-used"]
